@@ -7,7 +7,7 @@ from concurrent.futures import ThreadPoolExecutor
 from . import gen, tlc
 from .common import NCPU
 
-BODIES = ["none", "json", "form", "multi", "octet", "json+unsup", "unsup", "badschema", "json+badschema", "noschema",
+BODIES = ["none", "json", "form", "multi", "octet", "json+unsup", "unsup", "badschema", "json+badschema", "noschema", "json+mpjson",
           "ref", "refchain", "refcycle", "refdangling"]
 LAWS = ["Census", "Containment", "Downgrades", "Precedence", "RefTransparent"]
 S = {"type": "string"}
@@ -50,6 +50,7 @@ def conc_body(b: str):
         "badschema": {"content": {"application/json": {"schema": BADSCHEMA}}},
         "json+badschema": {"content": {"application/vnd.x+json": {"schema": BADSCHEMA}, "application/json": js}},
         "noschema": {"content": {"application/json": {}}},
+        "json+mpjson": {"content": {"application/json": js, "application/merge-patch+json": {"schema": {"type": "object", "properties": {"patch": S}}}}},
         "ref": {"$ref": "#/components/requestBodies/Good"},
         "refchain": {"$ref": "#/components/requestBodies/Chain"},
         "refcycle": {"$ref": "#/components/requestBodies/CycA"},
@@ -165,7 +166,8 @@ def project(data, op: dict, method: str = "post") -> dict:
     if eps:
         e = eps[0]
         out["handled"] = sorted(str(int(r.status_code)) for r in e.responses)
-        out["btypes"] = sorted(str(b.body_type.value) for b in e.bodies)
+        out["btypes"] = sorted({str(b.body_type.value) for b in e.bodies})
+        out["bmedia"] = sorted(str(b.content_type) for b in e.bodies)
         out["params"] = sorted((p.name, loc.value) for loc, p in e.iter_all_parameters())
     return out
 
